@@ -24,6 +24,7 @@ import (
 	"fmt"
 	"io"
 	"io/ioutil"
+	"math"
 	"mime"
 	"mime/multipart"
 	"net/http"
@@ -145,6 +146,10 @@ func (s *Modifier) ModifyResponse(res *http.Response) error {
 		if strings.HasPrefix(rng, "-") {
 			// Suffix range: the last n bytes.
 			n, err := strconv.ParseInt(strings.TrimSpace(rng[1:]), 10, 64)
+			if errors.Is(err, strconv.ErrRange) && n > 0 {
+				// More digits than fit: longer than any file.
+				err = nil
+			}
 			if err != nil || n <= 0 {
 				res.StatusCode = http.StatusRequestedRangeNotSatisfiable
 				return nil
@@ -164,13 +169,13 @@ func (s *Modifier) ModifyResponse(res *http.Response) error {
 			return nil
 		}
 		// A position that is not a number makes the range set invalid.
-		start, err := strconv.Atoi(strings.TrimSpace(rs[0]))
+		start, err := position(rs[0])
 		if err != nil {
 			res.StatusCode = http.StatusRequestedRangeNotSatisfiable
 			return nil
 		}
 
-		end, err := strconv.Atoi(strings.TrimSpace(rs[1]))
+		end, err := position(rs[1])
 		if err != nil {
 			res.StatusCode = http.StatusRequestedRangeNotSatisfiable
 			return nil
@@ -247,6 +252,16 @@ func (s *Modifier) ModifyResponse(res *http.Response) error {
 	res.Header.Set("Content-Type", fmt.Sprintf("multipart/byteranges; boundary=%s", mpw.Boundary()))
 
 	return nil
+}
+
+// position parses a byte position. Digits that do not fit an int stand for a
+// position beyond any file, which the caller clamps.
+func position(s string) (int, error) {
+	n, err := strconv.Atoi(strings.TrimSpace(s))
+	if errors.Is(err, strconv.ErrRange) && n > 0 {
+		return math.MaxInt, nil
+	}
+	return n, err
 }
 
 // SetExplicitPathMappings sets an optional mapping of request paths to local
